@@ -361,6 +361,12 @@ Inductive case :=
      brackets; observed: stored delegations, both answer entries, servers asked per resolution *)
 | CaseRace (steps : list rstep) (delegs : list (zone * option Z)) (entries : list (N * option (Z * Z * option Z)))
            (asked : list (N * list N))
+  (* DNSSEC-on pipeline against the repository's signed hermetic namespace: referral NS / DS TTLs (s),
+     brackets of the first tree [t0,t1] and of a second one through the cached delegation [t2,t3],
+     stored delegation expiry, the entries the trees admitted (answer, denial, DNSKEY, DS), then after the
+     parent withdrew: instant of the next query, whether it got the parent's NXDOMAIN, whether the old child was asked *)
+| CaseSec (ns ds t0 t1 t2 t3 : Z) (deleg : option Z) (entries : list (option (Z * Z * option Z)))
+          (t4 : Z) (nx child_asked : bool)
   (* full pipeline against the scripted world *)
 | CaseLab (zone_srv : list (zone * N)) (trees : list ltree).
 
@@ -433,6 +439,23 @@ Definition check_case (c : case) : bool :=
       forallb (fun ze => obetween (deleg_exp lo (fst ze)) (snd ze) (deleg_exp hi (fst ze))) delegs &&
       forallb (fun ke => entry_between (entry_view lo (fst ke)) (snd ke) (entry_view hi (fst ke))) entries &&
       forallb (fun ia => nlist_eqb (asked_get (fst ia) alo) (snd ia) && nlist_eqb (asked_get (fst ia) ahi) (snd ia)) asked
+  | CaseSec ns ds t0 t1 t2 t3 deleg entries t4 nx child_asked =>
+      let z := [1%N] in let q := [1%N; 2%N] in
+      let tree t := run code_fx [ASeed 0 0 q false t; ARefer 0 (mk_ref z 1 true ns (Some ds) true t false t [] false true true t); AStore 0 1 0 t] st_init in
+      let lo := tree t0 in let hi := tree t1 in
+      obetween (deleg_exp lo z) deleg (deleg_exp hi z) &&
+      (* validation material consumed from the cache folds its own lifetime in, so what a tree admits may end
+         earlier than the delegation, never later: every admitted entry carries a cut within the tree's *)
+      forallb (fun e => match e, cut_time (mt_cut (st_meta hi 0%N)) with
+                        | Some (_, _, Some c), Some m => c <=? m
+                        | Some (_, _, None), _ => false
+                        | None, _ => true
+                        | _, None => false
+                        end) entries &&
+      (* after the lease the model walks up to the root *)
+      (if (match deleg_exp hi z with Some e => e <=? t4 | None => true end)
+       then zone_eqb (m_zone (search_cache (st_dc hi) t4 q false)) [] && negb child_asked
+       else true)
   | CaseLab _ trees => lab_check st_init st_init trees
   end.
 
@@ -552,5 +575,10 @@ Definition spec_case (c : case) : bool :=
                             end
                         | _ => true
                         end) steps
+  | CaseSec ns ds t0 t1 t2 t3 deleg entries t4 nx child_asked =>
+      let bound := t1 + Z.min (Z.min ns ds * 1000000000) twelve_hours in
+      match deleg with Some e => e <=? bound | None => true end &&
+      forallb (fun e => match e with Some x => entry_end x <=? bound | None => true end) entries &&
+      (if bound <=? t4 then nx && negb child_asked else true)
   | CaseLab zone_srv trees => lab_spec [] zone_srv trees
   end.
